@@ -162,10 +162,16 @@ def run_obligation_files(workdir, prefix, groups, body_fn, hdr=HDR, timeout=1500
     return results
 
 
-def report_hist_diff(rep, rec, key):
-    """deformed instance built from an object whose cached properties had been read before deform() must equal the
-    instance built from a fresh object"""
-    d = rec.get('used_then_deformed_diff')
+QUERY_METHODS = ('measure_syndrome', 'in_codespace', 'logical_errors', 'is_logical_error', 'is_success')
+
+
+def report_hist_diff(rep, rec, key, queries=False):
+    """deformed instance built from an object whose cached properties had been read (and whose query methods had been used)
+    before deform() must equal the instance built from a fresh object.  queries=False: only the tables (matrix, logicals, masks,
+    d, k) are this property's business; queries=True: also the answers of measure_syndrome / in_codespace / ..."""
+    d = rec.get('used_then_deformed_diff') or []
+    if not queries:
+        d = [x for x in d if not x.startswith(QUERY_METHODS)]
     if d:
         rep.violation(dict(key, site='deform-after-use'),
                       '%s: an object whose properties were read before deform() exposes different %s than a fresh object '
